@@ -25,7 +25,9 @@ for pid in ids:
             "design_ref": f"DESIGN.md section 5, {pid}",
         },
         "level_note": m["level_note"],
-        "technique": m.get("technique", "Lean 4 theorems about an executable model (kernel-checked, axiom-audited) + regenerated source facts + differential correspondence of model and implementation"),
+        "technique": m.get("technique", "machine-checked proof in Lean 4: theorems about an executable model (kernel-checked, axiom-audited on every run)"
+                           + (", tied to the source by Go->Lean translations of the anchored functions regenerated on every run with equivalence theorems (Props/" + ", ".join(x for x in m.get("props", []) if x.startswith("Trans")) + ")" if any(x.startswith("Trans") for x in m.get("props", [])) else "")
+                           + ", by regenerated source facts pinned by lemmas, and by a differential correspondence run of model and implementation (the search for a failing input when a tie breaks)"),
     })
 manifest = {
     "version": 1,
